@@ -33,6 +33,7 @@ type trUnit struct {
 	structs map[string][]string // struct name -> fields to include (nil = all)
 	enums   []string            // named integer types whose constants are emitted
 	funcs   []string            // "recv.name" or "name"
+	opaque  map[string]string   // method name -> field of Ext it stands for (a method the subset cannot express), applied to the method's name
 }
 
 var trUnits = []trUnit{
@@ -52,6 +53,11 @@ var trUnits = []trUnit{
 		enums:   []string{"AggregateOperation"},
 		funcs: []string{"AggregateSet.addFloat", "AggregateSet.addFloatMin", "AggregateSet.addFloatMax", "AggregateSet.setString",
 			"AggregateSet.setFloat", "AggregateSet.Aggregate", "AggregateSet.Merge"}},
+	{ns: "Discovery", pkgDir: "internal/discovery", matchExt: "reMatchRaw",
+		structs: map[string][]string{"Discovery": {"server", "regex", "order"}},
+		enums:   []string{"ServerOrder"},
+		opaque:  map[string]string{"serverListFromModule": "strList"},
+		funcs:   []string{"Discovery.filterList", "Discovery.dedupList", "Discovery.shuffleList", "Discovery.ServerList"}},
 }
 
 type trErr struct{ msg string }
@@ -183,6 +189,10 @@ func (p *trPkg) leanType(e ast.Expr) string {
 		return "(List " + p.leanType(t.Elt) + ")"
 	case *ast.MapType:
 		return "(GoMap " + p.leanType(t.Key) + " " + p.leanType(t.Value) + ")"
+	case *ast.StructType:
+		if t.Fields == nil || len(t.Fields.List) == 0 {
+			return "Unit"
+		}
 	}
 	trFail(e, "type expression %s is not in the translated subset", src(e))
 	return ""
@@ -494,9 +504,21 @@ func (f *trFn) stmts(ind string, l []ast.Stmt, k cont) string {
 		return f.switchStmt(ind, st, next)
 	case *ast.RangeStmt:
 		return f.rangeStmt(ind, st, next)
+	case *ast.ForStmt:
+		return f.forStmt(ind, st, next)
 	}
 	trFail(s, "statement %T is not in the translated subset", s)
 	return ""
+}
+
+// randDraw: the receiver of `r.Intn(n)` (math/rand), or nil
+func randDraw(call *ast.CallExpr) *ast.Ident {
+	sel, ok := call.Fun.(*ast.SelectorExpr)
+	if !ok || sel.Sel.Name != "Intn" {
+		return nil
+	}
+	id, _ := sel.X.(*ast.Ident)
+	return id
 }
 
 func isLogging(call *ast.CallExpr) bool {
@@ -554,6 +576,17 @@ func (f *trFn) assign(ind string, st *ast.AssignStmt, k cont) string {
 	if len(st.Lhs) == 1 {
 		if call, ok := st.Rhs[0].(*ast.CallExpr); ok && f.isTranslatedMethodCall(call) {
 			return f.callStmt(ind, st.Lhs, define, call, k)
+		}
+		// x := r.Intn(n): the random source is a value; a draw returns the number and the rest of the source
+		if call, ok := st.Rhs[0].(*ast.CallExpr); ok && st.Tok != token.ADD_ASSIGN {
+			if recv := randDraw(call); recv != nil {
+				if _, isVar := f.lookup(recv.Name); isVar && len(call.Args) == 1 {
+					f.counter++
+					t := fmt.Sprintf("_t%d", f.counter)
+					out := fmt.Sprintf("%slet (%s, %s) := goIntn %s %s\n", ind, t, f.v(recv.Name), f.v(recv.Name), f.expr(call.Args[0]))
+					return out + f.oneAssign(ind, st.Lhs[0], define, t, k)
+				}
+			}
 		}
 	}
 	// evaluate all right-hand sides first (Go semantics for tuple assignment)
@@ -923,6 +956,9 @@ func (f *trFn) assignedOuter(body []ast.Stmt) []string {
 					mark(sel.X)
 				}
 			}
+			if recv := randDraw(s); recv != nil {
+				mark(recv)
+			}
 		}
 		return true
 	})
@@ -952,26 +988,95 @@ func (f *trFn) rangeStmt(ind string, st *ast.RangeStmt, k cont) string {
 	if keyName != "" {
 		coll = "(goEnum " + coll + ")"
 	}
-	state := f.assignedOuter(st.Body.List)
+	return f.loopOver(ind, coll, st.Body.List, func() string {
+		x := "_x"
+		if st.Value != nil {
+			x = f.declare(st.Value.(*ast.Ident).Name)
+		}
+		if keyName != "" {
+			x = "(" + f.declare(keyName) + ", " + x + ")"
+		}
+		return x
+	}, k)
+}
+
+// loopOver: `goRange coll state (fun state x => body) (fun state => k)`
+func (f *trFn) loopOver(ind string, coll string, body []ast.Stmt, declare func() string, k cont) string {
+	state := f.assignedOuter(body)
 	f.loop = &trLoop{state: state}
 	stateTuple := f.loopState()
 	f.push()
-	x := "_x"
-	if st.Value != nil {
-		x = f.declare(st.Value.(*ast.Ident).Name)
-	}
-	if keyName != "" {
-		x = "(" + f.declare(keyName) + ", " + x + ")"
-	}
+	x := declare()
 	out := fmt.Sprintf("%sgoRange %s %s\n", ind, coll, stateTuple)
 	out += fmt.Sprintf("%s  (fun %s %s =>\n", ind, stateTuple, x)
-	out += f.stmts(ind+"    ", st.Body.List, func(ind string) string { return ind + "LoopStep.next " + f.loopState() + "\n" })
+	out += f.stmts(ind+"    ", body, func(ind string) string { return ind + "LoopStep.next " + f.loopState() + "\n" })
 	out = strings.TrimRight(out, "\n") + ")\n"
 	f.pop()
 	f.loop = nil
 	out += fmt.Sprintf("%s  (fun %s =>\n", ind, stateTuple)
 	out += strings.TrimRight(k(ind+"    "), "\n") + ")\n"
 	return out
+}
+
+// forStmt: the counting loop `for i := lo; i < hi; i++ { body }` where the body assigns neither i nor
+// a variable of hi: the same iterations as ranging over lo, lo+1, …, hi-1
+func (f *trFn) forStmt(ind string, st *ast.ForStmt, k cont) string {
+	if f.loop != nil {
+		trFail(st, "nested loops are not in the translated subset")
+	}
+	init, ok1 := st.Init.(*ast.AssignStmt)
+	cond, ok2 := st.Cond.(*ast.BinaryExpr)
+	post, ok3 := st.Post.(*ast.IncDecStmt)
+	if !ok1 || !ok2 || !ok3 || init.Tok != token.DEFINE || len(init.Lhs) != 1 || len(init.Rhs) != 1 || cond.Op != token.LSS || post.Tok != token.INC {
+		trFail(st, "only counting loops `for i := lo; i < hi; i++` are in the translated subset")
+	}
+	iv, ok := init.Lhs[0].(*ast.Ident)
+	cx, okc := cond.X.(*ast.Ident)
+	px, okp := post.X.(*ast.Ident)
+	if !ok || !okc || !okp || cx.Name != iv.Name || px.Name != iv.Name {
+		trFail(st, "counting loop: condition and increment must be about the loop variable")
+	}
+	// nothing the bound mentions, and not the counter, may be assigned in the body
+	frozen := map[string]bool{iv.Name: true}
+	ast.Inspect(cond.Y, func(n ast.Node) bool {
+		if id, ok := n.(*ast.Ident); ok {
+			frozen[id.Name] = true
+		}
+		return true
+	})
+	root := func(e ast.Expr) string {
+		for {
+			switch t := e.(type) {
+			case *ast.SelectorExpr:
+				e = t.X
+			case *ast.IndexExpr:
+				e = t.X
+			case *ast.StarExpr:
+				e = t.X
+			case *ast.Ident:
+				return t.Name
+			default:
+				return ""
+			}
+		}
+	}
+	ast.Inspect(st.Body, func(n ast.Node) bool {
+		switch s := n.(type) {
+		case *ast.AssignStmt:
+			for _, l := range s.Lhs {
+				if frozen[root(l)] {
+					trFail(s, "counting loop: the body assigns %s, which the loop header reads", root(l))
+				}
+			}
+		case *ast.IncDecStmt:
+			if frozen[root(s.X)] {
+				trFail(s, "counting loop: the body assigns %s, which the loop header reads", root(s.X))
+			}
+		}
+		return true
+	})
+	coll := fmt.Sprintf("(goUpTo %s %s)", f.expr(init.Rhs[0]), f.expr(cond.Y))
+	return f.loopOver(ind, coll, st.Body.List, func() string { return f.declare(iv.Name) }, k)
 }
 
 // ---------------------------------------------------------------- expressions
@@ -1038,7 +1143,26 @@ func (f *trFn) expr(e ast.Expr) string {
 			return f.expr(v.X)
 		}
 	case *ast.BinaryExpr:
+		if id, ok := v.Y.(*ast.Ident); ok && id.Name == "nil" && (v.Op == token.EQL || v.Op == token.NEQ) && f.isRegexpPtr(v.X) {
+			// a *regexp.Regexp is nil until it holds a compiled expression
+			if v.Op == token.NEQ {
+				return "(" + f.expr(v.X) + ").compiled"
+			}
+			return "(!(" + f.expr(v.X) + ").compiled)"
+		}
 		return f.binop(v, v.Op.String(), f.expr(v.X), f.expr(v.Y))
+	case *ast.SliceExpr:
+		if v.Slice3 {
+			trFail(v, "three-index slices are not in the translated subset")
+		}
+		x := f.expr(v.X)
+		if v.High != nil {
+			x = fmt.Sprintf("(List.take (Int.toNat %s) %s)", f.expr(v.High), x)
+		}
+		if v.Low != nil {
+			x = fmt.Sprintf("(List.drop (Int.toNat %s) %s)", f.expr(v.Low), x)
+		}
+		return x
 	case *ast.SelectorExpr:
 		if id, ok := v.X.(*ast.Ident); ok {
 			if _, isVar := f.lookup(id.Name); !isVar {
@@ -1061,6 +1185,10 @@ func (f *trFn) expr(e ast.Expr) string {
 					fields = append(fields, fmt.Sprintf("%s := %s", src(kv.Key), f.expr(kv.Value)))
 				}
 				return "({ " + strings.Join(fields, ", ") + " } : " + t.Name + ")"
+			}
+		case *ast.StructType:
+			if (t.Fields == nil || len(t.Fields.List) == 0) && len(v.Elts) == 0 {
+				return "()"
 			}
 		case *ast.ArrayType:
 			if t.Len == nil {
@@ -1102,6 +1230,14 @@ func (f *trFn) expr(e ast.Expr) string {
 			}
 		}
 		if sel, ok := v.Fun.(*ast.SelectorExpr); ok {
+			if term, ok := f.p.unit.opaque[sel.Sel.Name]; ok && len(v.Args) == 0 {
+				if id, isId := sel.X.(*ast.Ident); isId && id.Name == f.recv {
+					return "(ext." + term + " " + leanBytesLit(sel.Sel.Name) + ")"
+				}
+			}
+			if sel.Sel.Name == "MatchString" && len(v.Args) == 1 && f.isRegexpPtr(sel.X) {
+				return "(ext.reMatchRaw " + f.expr(sel.X) + " " + f.expr(v.Args[0]) + ")"
+			}
 			if sel.Sel.Name == "Match" && len(v.Args) == 1 && !f.isTranslatedMethodCall(v) {
 				if _, isIdent := sel.X.(*ast.Ident); !isIdent || f.p.unit.matchExt == "reMatchRaw" {
 					return "(ext." + f.p.unit.matchExt + " " + f.expr(sel.X) + " " + f.expr(v.Args[0]) + ")"
@@ -1136,10 +1272,25 @@ func (f *trFn) expr(e ast.Expr) string {
 		case "len":
 			return "(GoLen.len " + f.expr(v.Args[0]) + ")"
 		case "append":
-			if len(v.Args) != 2 || v.Ellipsis.IsValid() {
+			if len(v.Args) != 2 {
 				trFail(v, "append with %d arguments", len(v.Args))
 			}
+			if v.Ellipsis.IsValid() {
+				return "(" + f.expr(v.Args[0]) + " ++ " + f.expr(v.Args[1]) + ")"
+			}
 			return "(" + f.expr(v.Args[0]) + " ++ [" + f.expr(v.Args[1]) + "])"
+		case "make":
+			switch t := v.Args[0].(type) {
+			case *ast.MapType:
+				return "(GoZero.zero : " + f.p.leanType(t) + ")" // the capacity hint has no meaning
+			case *ast.ArrayType:
+				if t.Len == nil && len(v.Args) == 2 {
+					return fmt.Sprintf("(List.replicate (Int.toNat %s) %s)", f.expr(v.Args[1]), f.p.leanZero(t.Elt))
+				}
+			}
+			trFail(v, "make(%s, …) is not in the translated subset", src(v.Args[0]))
+		case "rand.New":
+			return "ext.randNew"
 		case "strings.Split":
 			return "(splitOnByte " + f.oneByteLit(v.Args[1]) + " " + f.expr(v.Args[0]) + ")"
 		case "strings.SplitN":
@@ -1187,6 +1338,30 @@ func (f *trFn) expr(e ast.Expr) string {
 	}
 	trFail(e, "expression %s (%T) is not in the translated subset", src(e), e)
 	return ""
+}
+
+// isRegexpPtr: the expression is a variable or a field of the receiver declared as *regexp.Regexp
+func (f *trFn) isRegexpPtr(e ast.Expr) bool {
+	sel, ok := e.(*ast.SelectorExpr)
+	if !ok {
+		return false
+	}
+	base, ok := sel.X.(*ast.Ident)
+	if !ok {
+		return false
+	}
+	st, ok := f.p.structs[f.vtypes[base.Name]]
+	if !ok {
+		return false
+	}
+	for _, fl := range st.Fields.List {
+		for _, n := range fl.Names {
+			if n.Name == sel.Sel.Name {
+				return src(fl.Type) == "*regexp.Regexp"
+			}
+		}
+	}
+	return false
 }
 
 // leanBytesLit: a Go string constant as an explicit byte list (reduces in the kernel, unlike a run-time conversion)
